@@ -509,6 +509,19 @@ func generate(prop string, fl *hx.Flags) []unit {
 			us = append(us, unit{Case: c})
 		}
 	}
+	// hand-off episodes (lease.go): part of C04
+	if prop == "C04" {
+		nh := 8
+		if fl.Tier == "thorough" {
+			nh = 24
+		}
+		for i := 0; i < nh; i++ {
+			id++
+			c := handoffCase(prop, fl.Seed, i, fl.Tier == "thorough")
+			c.ID = id
+			us = append(us, unit{Case: c})
+		}
+	}
 	// renewal races on the un-gated store (free.go, LeaseMs > 0): judged by residue only, part of C04
 	if prop == "C04" {
 		nrace := 32
